@@ -578,15 +578,16 @@ def harness_meson(config, name='xrlmon', sanitize=None, variant=None):
 
 def locale_dir():
     """synthetic locales (LOCPATH): xx_VERIF - comma decimal point, ASCII character classes; xx_LATIN - decimal point '.', but the character
-    classes of ISO-8859-1 (bytes 0xC0-0xFF are letters with upper / lower case), as a host with a single-byte national locale has them"""
+    classes of ISO-8859-1 (bytes 0xC0-0xFF are letters with upper / lower case), as a host with a single-byte national locale has them;
+    xx_COLL - like xx_LATIN, and a collation order (LC_COLLATE) in which '_' sorts before digits and letters, as CLDR-based locales have it"""
     def mk(d):
         src = os.path.join(VERIF, 'locale-src')
-        for name, cm in (('xx_VERIF', 'charmap'), ('xx_LATIN', 'charmap-latin1')):
+        for name, cm in (('xx_VERIF', 'charmap'), ('xx_LATIN', 'charmap-latin1'), ('xx_COLL', 'charmap-latin1')):
             p = subprocess.run(['localedef', '-c', '-i', os.path.join(src, name), '-f', os.path.join(src, cm), os.path.join(d, name)],
                                stdout=subprocess.PIPE, stderr=subprocess.STDOUT)
             if not os.path.exists(os.path.join(d, name, 'LC_NUMERIC')):
                 raise BuildError('localedef failed: ' + p.stdout.decode())
-    return _target('locale2', mk)
+    return _target('locale3', mk)
 
 
 def macros():
